@@ -178,7 +178,10 @@ class ConstraintCopyBuilder(ModelVisitor):
         
     def visit_constraint_unique(self, c:ConstraintUniqueModel):
         if self.do_copy_level > 0:
-            self.constraints.append(c.clone())
+            # Copy the terms as well, such that references to a foreach
+            # index or iterator inside them are expanded per iteration
+            self.constraints.append(ConstraintUniqueModel(
+                [self.expr(e) for e in c.unique_l]))
         else:
             super().visit_constraint_unique(c)
         
